@@ -34,6 +34,7 @@ type h6Cfg struct {
 	permP, bindAge, bindP int // client, ms (0 = library default)
 	peers                int
 	rf, cp, cb           []h6Pat
+	rf0                  []h6Pat // fate of Close's Refresh(0)
 }
 
 type h6Tx struct {
@@ -153,6 +154,7 @@ func (k *h6World) onDatagram(from, to net.Addr, b []byte) bool {
 				_ = lt.GetFrom(m)
 				if lt.Duration == 0 {
 					tx.kind = "rf0"
+					tx.pat = h6Pick(k.cfg.rf0, 0)
 				} else {
 					tx.kind = "rf"
 					tx.pat = h6Pick(k.cfg.rf, k.rfIdx)
@@ -375,13 +377,12 @@ func (k *h6World) close(compat bool) {
 	k.vt.OpSync("kclose")
 	err := k.conn.Close()
 	line, _ := k.take()
-	n := k.w.srv.AllocationCount()
-	if line == "-" {
-		line = fmt.Sprintf("count %d", n)
-	} else {
-		line += fmt.Sprintf(";count %d", n)
-	}
 	k.vt.Obs("%s", line)
+	// the Refresh(0) is retransmitted like any other request: give it its seven transmissions
+	k.adv(10000)
+	k.vt.OpSync("kcount")
+	n := k.w.srv.AllocationCount()
+	k.vt.Obs("count %d", n)
 	if n != 0 {
 		if k.last0 == "438" {
 			k.vt.Alarm("close-ignored-438", "Close at t=%d ms (err=%v): the Refresh(0) was answered 438 Stale Nonce and not retried; AllocationCount=%d", k.now(), err, n)
@@ -411,8 +412,8 @@ func (k *h6World) open(tag string) bool {
 		cb = 1
 	}
 	e := c.effective()
-	k.vt.Op("k6 life=%d permT=%d chanT=%d permP=%d bindAge=%d bindP=%d peers=%d rf=%s cp=%s cb=%s compat=%d tag=%s",
-		e.life, e.permT, e.chanT, e.permP, e.bindAge, e.bindP, c.peers, h6Pats(c.rf), h6Pats(c.cp), h6Pats(c.cb), cb, tag)
+	k.vt.Op("k6 life=%d permT=%d chanT=%d permP=%d bindAge=%d bindP=%d peers=%d rf=%s cp=%s cb=%s rf0=%s compat=%d tag=%s",
+		e.life, e.permT, e.chanT, e.permP, e.bindAge, e.bindP, c.peers, h6Pats(c.rf), h6Pats(c.cp), h6Pats(c.cb), h6Pats(c.rf0), cb, tag)
 	k.vt.Obs("ok compat=%d", cb)
 	k.vt.Stat(fmt.Sprintf("h6.compat.%d", cb))
 	return compat
@@ -464,6 +465,8 @@ func h6RandCfg(vt *vhT) h6Cfg {
 		c.rf = h6RandPats(vt, 1+r.Intn(5), heavy)
 		c.cp = h6RandPats(vt, 1+r.Intn(5), heavy)
 		c.cb = h6RandPats(vt, 1+r.Intn(7), heavy)
+		c.rf0 = h6RandPats(vt, 1, heavy)
+		c.rf0[0].dup = false
 	}
 	return c
 }
@@ -529,6 +532,9 @@ func TestVerifH6(t *testing.T) {
 	// directed: Close while the client's nonce is stale (no peers: nothing refreshes between 60 and 65 min)
 	runH6History(t, vt, h6Cfg{}, "close-stale-nonce", 0, false, 61*min+30000)
 	runH6History(t, vt, h6Cfg{}, "close-fresh-nonce", 0, false, 59*min)
+	// directed: the first copy of Close's Refresh(0) is lost / its answer is lost: it is retransmitted
+	runH6History(t, vt, h6Cfg{peers: 1, rf0: []h6Pat{{1, 0, false}}}, "close-first-copy-lost", 0, false, 7*min)
+	runH6History(t, vt, h6Cfg{peers: 1, rf0: []h6Pat{{3, 2, false}}}, "close-lossy", 0, false, 11*min)
 	n, maxMin := 24, 130
 	if vt.Thorough() {
 		n, maxMin = 600, 400
